@@ -39,14 +39,24 @@ def cminx_exe(sb_dir):
     return exe
 
 
-def run_cmake(sb_dir, exe, inp, outp, extra, raw=False):
-    script = os.path.join(sb_dir, 'drive.cmake')
+def run_cmake(sb_dir, exe, inp, outp, extra, raw=False, mode='script'):
+    """mode 'script': cmake -P; 'project': an out-of-source configure of a project whose CMakeLists.txt makes the call (the working
+    directory, against which relative paths are meant, is then neither the source nor the build directory)"""
     q = cq_raw if raw else cq
-    with open(script, 'w') as f:
-        f.write(f'set(CMINX_EXECUTABLE {cq(exe)})\ninclude({cq(CMAKE_MODULE)})\ncminx_gen_rst({cq(inp)} {cq(outp)} {" ".join(q(e) for e in extra)})\nmessage(STATUS "configure continues")\n')
+    body = f'set(CMINX_EXECUTABLE {cq(exe)})\ninclude({cq(CMAKE_MODULE)})\ncminx_gen_rst({cq(inp)} {cq(outp)} {" ".join(q(e) for e in extra)})\nmessage(STATUS "configure continues")\n'
     env = dict(os.environ, HOME=os.path.join(sb_dir, 'home'), XDG_CONFIG_HOME=os.path.join(sb_dir, 'home', '.config'))
     env.pop('CMINXDIR', None)
-    p = subprocess.run(['cmake', '-P', script], capture_output=True, text=True, cwd=sb_dir, env=env, timeout=120)
+    if mode == 'project':
+        psrc = os.path.join(sb_dir, '+psrc+'); pbuild = os.path.join(sb_dir, '+pbuild+')
+        shutil.rmtree(psrc, ignore_errors=True); shutil.rmtree(pbuild, ignore_errors=True); os.makedirs(psrc)
+        with open(os.path.join(psrc, 'CMakeLists.txt'), 'w') as f:
+            f.write('cmake_minimum_required(VERSION 3.19)\nproject(drive LANGUAGES NONE)\n' + body)
+        cmd = ['cmake', '-S', psrc, '-B', pbuild]
+    else:
+        script = os.path.join(sb_dir, 'drive.cmake')
+        with open(script, 'w') as f: f.write(body)
+        cmd = ['cmake', '-P', script]
+    p = subprocess.run(cmd, capture_output=True, text=True, cwd=sb_dir, env=env, timeout=120)
     return p.returncode, p.stdout + p.stderr
 
 
@@ -57,8 +67,10 @@ def run_cli(sb_dir, exe, args):
     return p.returncode
 
 
-def gen_input(g, sb_dir):
-    kind = g.choice(['dir', 'dir', 'nested', 'file', 'missing', 'syntax-error'])
+KINDS = ['dir', 'nested', 'file', 'missing', 'syntax-error', 'nested']
+
+
+def gen_input(g, sb_dir, kind):
     base = os.path.join(sb_dir, g.choice(['src', 'src dir', 'sr$c'])); os.makedirs(base, exist_ok=True)
     if kind in ('dir', 'nested'):
         ch = T.gen_dir(g, 0, max_depth=2 if kind == 'nested' else 0, want_cmake=True)
@@ -78,18 +90,21 @@ def cmake_suite(seed, count, out, drv, budget_s=None):
         g = random.Random(f"C19/{seed}/{n}")
         with impl.Sandbox() as sb:
             os.makedirs(os.path.join(sb.dir, 'home', '.config'))
-            kind, inp, is_dir = gen_input(g, sb.dir)
+            kind, inp, is_dir = gen_input(g, sb.dir, KINDS[(n // 4) % len(KINDS)])      # the grid kind x mode x relative is walked systematically
             sfile = os.path.join(sb.dir, 's.yaml'); open(sfile, 'w').write('rst:\n  module_path_separator: "/"\n')
             extra = []
             for grp in g.sample(EXTRA_GROUPS, g.choice([0, 0, 1, 1, 2, 3])):
                 extra += [x.replace('{SFILE}', sfile) for x in grp]
-            key = ('C19', seed, n); rec = dict(suite='cmake', key=key, kind=kind, extra=extra)
+            mode = ['script', 'project'][n % 2]; rel = (n // 2) % 2 == 1
+            if rel: inp = os.path.relpath(inp, sb.dir)        # relative to the working directory of both cmake and the direct run
+            key = ('C19', seed, n); rec = dict(suite='cmake', key=key, kind=kind, extra=extra, mode=mode, relative_input=rel)
+            out.dist['mode:' + mode] += 1; out.dist['input-path:' + ('relative' if rel else 'absolute')] += 1
             out.note_case(key, True); out.dist['input:' + kind] += 1; out.dist['extra-groups:%d' % (len(extra) // 2)] += 1
             out.sample(dict(suite='cmake', input_kind=kind, extra=extra))
             # (a) recorder: argv as CMake builds it vs the model
             r_exe, log = recorder(sb.dir)
             outa = os.path.join(sb.dir, g.choice(['out_a', 'out a']))
-            rc, txt = run_cmake(sb.dir, r_exe, inp, outa, extra)
+            rc, txt = run_cmake(sb.dir, r_exe, inp, outa, extra, mode=mode)
             out.traces_validated += 1
             argv = json.load(open(log)) if os.path.exists(log) else None
             mo = drv.run([dict(op='cmakewrap', is_dir=is_dir, input=inp, output=outa, extra=extra)])[0]
@@ -101,7 +116,7 @@ def cmake_suite(seed, count, out, drv, budget_s=None):
             # (b) the working-tree CMinx through CMake vs directly
             exe = cminx_exe(sb.dir)
             outb = os.path.join(sb.dir, 'out_b'); outc = os.path.join(sb.dir, 'out_c')
-            rcb, txtb = run_cmake(sb.dir, exe, inp, outb, extra)
+            rcb, txtb = run_cmake(sb.dir, exe, inp, outb, extra, mode=mode)
             rcc = run_cli(sb.dir, exe, [inp, '-o', outc] + extra + (['-r'] if is_dir else []))
             out.traces_validated += 2
             tb, tc = T.read_tree(outb), T.read_tree(outc)
@@ -118,7 +133,7 @@ def cmake_suite(seed, count, out, drv, budget_s=None):
             # (c) a failing child must be fatal
             if n % 4 == 0:
                 f_exe, _ = recorder(sb.dir, status=3)
-                rcf, txtf = run_cmake(sb.dir, f_exe, inp, outa, extra)
+                rcf, txtf = run_cmake(sb.dir, f_exe, inp, outa, extra, mode=mode)
                 out.traces_validated += 1
                 if rcf == 0 or 'configure continues' in txtf:
                     out.violations.append(dict(rec, detail=dict(kind='non-zero child status not fatal', cmake_status=rcf), model_agrees=True))
